@@ -49,6 +49,7 @@ func (e *Env) storeCompOf(keyTerm string) string {
 func (e *Env) newErr(st *State, name string) Val {
 	t := e.D.fresh("err_"+name, sIface)
 	st.define(tNot(tEq(t, "nilI")))
+	e.nonNil[t] = true
 	return termVal(errType, sIface, t)
 }
 
@@ -245,6 +246,9 @@ func init() {
 		a := e.term(st, args[0])
 		if a == "nilI" {
 			return one(st, termVal(errType, sIface, "nilI"))
+		}
+		if e.nonNil[a] {
+			return one(st, e.newErr(st, "wrap"))
 		}
 		r := e.D.fresh("wrapped", sIface)
 		st.define(tEq(tEq(r, "nilI"), tEq(a, "nilI")))
